@@ -914,6 +914,8 @@ JANET_CORE_FN(os_sigaction,
     int sig = get_signal_kw(argv, 0);
     JanetFunction *handler = janet_optfunction(argv, argc, 1, NULL);
     int can_interrupt = janet_optboolean(argv, argc, 2, 0);
+    /* The handler is called with no arguments when the signal arrives */
+    if (NULL != handler && handler->def->min_arity > 0) janet_panic("signal handler must accept 0 arguments");
     Janet oldhandler = janet_table_get(&janet_vm.signal_handlers, janet_wrap_integer(sig));
     if (!janet_checktype(oldhandler, JANET_NIL)) {
         janet_gcunroot(oldhandler);
